@@ -149,7 +149,7 @@ def register(ctx, rid="C05.register", handles=True, record=True):
         ctx.broken("rcu handles not instantiated")
 
 
-def unlink_first(ctx, rid="C05.unlink-first", strict_values=True):
+def unlink_first(ctx, rid="C05.unlink-first", strict_values=True, all_or_nothing=False, nothrow_after_unlink=False):
     ctx.rule(rid, "erase: the node is unlinked from both neighbours (or head/tail) and marked deleted before the CAS that "
              "logs it; the logged record carries the erased node", floor=8)
     fs = list(ctx.fb.functions(rec=RCU, name="erase"))
@@ -197,6 +197,26 @@ def unlink_first(ctx, rid="C05.unlink-first", strict_values=True):
             dl = [e for e in before if e["k"] == "write" and e["obj"] == it + "->deleted" and e["lit"] is True]
             ok = len(dl) == 1
             ctx.ob(rid, ok, f.loc(cas[0]["st"]), "the node is marked deleted before it is logged", "", fn=f.label, inst=f.qname)
+            if all_or_nothing and dl and (fwd or bwd):
+                # marking and unlinking must not be separated by anything that can throw: a node that is marked but
+                # still linked can never be erased again (every later erase sees 'deleted' and returns)
+                i_mark = ev.index(dl[0])
+                i_last = max(ev.index(e) for e in fwd + bwd)
+                lo, hi = min(i_mark, i_last), max(i_mark, i_last)
+                thr = [e for e in ev[lo:hi] if e["k"] in ("allocate", "construct")]
+                ctx.ob(rid, not thr, f.loc(thr[0]["st"]) if thr else f.loc(dl[0]["st"]),
+                       "nothing that can throw runs between marking the node deleted and unlinking it",
+                       "" if not thr else "%s may throw here: the node stays in the list but is already marked deleted, so "
+                       "no later erase can remove it" % thr[0]["k"], fn=f.label, inst=f.qname)
+            if nothrow_after_unlink and (fwd or bwd or dl):
+                # once the node is marked / unlinked, the log record is the only way it is ever freed: everything that
+                # can fail (the record's allocation) has to happen before
+                i_first = min(ev.index(e) for e in fwd + bwd + dl)
+                thr = [e for e in ev[i_first:i0] if e["k"] in ("allocate", "construct")]
+                ctx.ob(rid, not thr, f.loc(thr[0]["st"]) if thr else f.loc(cas[0]["st"]),
+                       "the reclamation record is allocated before the node is marked or unlinked (no failure point between "
+                       "unlinking and logging)", "" if not thr else "%s may throw after the node left the list: it is then in "
+                       "neither the list nor the log and is never destroyed or deallocated" % thr[0]["k"], fn=f.label, inst=f.qname)
             cons = [e for e in before if e["k"] == "construct"]
             itok = pe.tf.get(it)
             ok = len(cons) == 1 and len(cons[0]["args"]) == 3 and \
@@ -247,6 +267,17 @@ def reclaim(ctx):
                        "" if ok else "an older reader is still active (owner != nullptr) yet records are destroyed: that reader "
                        "may still reach the nodes they carry", fn=f.label, inst=f.qname)
                 ok = bool(owner_loads)
+                if not ok:
+                    # the scan may be delegated (an algorithm call, a helper): the reclaiming branch is then decided by
+                    # a call result this interpreter cannot open - undecided, not a violation
+                    i_free = ev.index(frees[0])
+                    opaque = [e for e in ev[:i_free] if e["k"] == "branch" and
+                              any(str(t or "").startswith("call:") for t in e["toks"].values())]
+                    if opaque:
+                        ctx.unknown("%s: %s: reclamation in unlock is decided by the result of a call (%s) that the path "
+                                    "interpreter cannot open; cannot tell whether the older records were scanned"
+                                    % (rid, f.loc(frees[0]["st"]), f.loc(opaque[-1]["cond"]) if opaque[-1].get("cond") else "?"))
+                        continue
                 ctx.ob(rid, ok, f.loc(frees[0]["st"]), "reclamation happens only after the older records were scanned",
                        "" if ok else "no owner was examined on this path", fn=f.label, inst=f.qname)
                 # same cursor: the first freed record is the first scanned one
